@@ -6,7 +6,10 @@
 //!   ids, each entry lets that thread run to its next point.  The writer closure stores the k
 //!   words one by one with a point between two stores.  Observation:
 //!   `((rid c0 done (words))* done (position of every thread))`.
-//! Form 1 `(1 nwrites nreaders nreads)`: free-running stress, one writer storing 8 equal words,
+//! A call of write is `((words) ())` or `((words) (j))` = its closure panics after storing j words
+//! (the writer thread catches the panic that `write` re-raises and goes on).
+//! Form 1 `(1 nwrites nreaders nreads panic_first)`: free-running stress (optionally after a first
+//! write whose closure panics), one writer storing 8 equal words,
 //!   readers count torn / stale / non-monotone results.  Observation `(torn stale nonmono total)`.
 use fuel_core_services::seqlock::{verif_hooks, SeqLock};
 use std::cell::Cell;
@@ -27,6 +30,9 @@ enum Msg {
 /// panic payload used to unwind a parked reader out of `read()` at the end of a run
 struct Released;
 
+/// panic payload of a scripted panicking write closure
+struct ScriptedPanic;
+
 /// observation of a run that did not finish in time (only possible with a broken lock)
 fn t_hang() -> T {
     T::l(vec![T::i(-778)])
@@ -40,10 +46,21 @@ fn run_sched(input: &T) -> T {
     for (i, w) in f[2].as_l().iter().enumerate() {
         init[i] = w.as_u64();
     }
-    let wqs: Vec<Vec<Vec<u64>>> = f[3]
+    // a call of write: ((words) ()) returns, ((words) (j)) its closure panics after j words
+    let wqs: Vec<Vec<(Vec<u64>, Option<usize>)>> = f[3]
         .as_l()
         .iter()
-        .map(|q| q.as_l().iter().map(|v| v.as_l().iter().map(|w| w.as_u64()).collect()).collect())
+        .map(|q| {
+            q.as_l()
+                .iter()
+                .map(|c| {
+                    let c = c.as_l();
+                    let words = c[0].as_l().iter().map(|w| w.as_u64()).collect();
+                    let outcome = c[1].as_l().first().map(|j| j.as_usize().min(k));
+                    (words, outcome)
+                })
+                .collect()
+        })
         .collect();
     let nw = wqs.len();
     let nr = f[4].as_usize();
@@ -78,14 +95,22 @@ fn run_sched(input: &T) -> T {
                         free_h.set(true);
                     }
                 })));
-                for v in q {
-                    writer.write(|d: &mut Data| {
-                        d[0] = v[0];
-                        for i in 1..k {
-                            verif_hooks::point(1);
-                            d[i] = v[i];
-                        }
-                    });
+                for (v, outcome) in q {
+                    let lim = outcome.unwrap_or(k);
+                    // the caller survives the panic that write re-raises
+                    let _ = std::panic::catch_unwind(std::panic::AssertUnwindSafe(|| {
+                        writer.write(|d: &mut Data| {
+                            for i in 0..lim {
+                                if i > 0 {
+                                    verif_hooks::point(1);
+                                }
+                                d[i] = v[i];
+                            }
+                            if outcome.is_some() {
+                                std::panic::panic_any(ScriptedPanic);
+                            }
+                        })
+                    }));
                     done.fetch_add(1, Ordering::SeqCst);
                 }
                 if !free.get() {
@@ -195,7 +220,14 @@ fn run_stress(input: &T) -> T {
     let nwrites = f[1].as_u64();
     let nreaders = f[2].as_usize();
     let nreads = f[3].as_u64();
+    let panic_first = f[4].as_bool();
     let (writer, reader) = unsafe { SeqLock::new([0u64; WORDS]) };
+    if panic_first {
+        // a first write whose closure panics before storing anything (the cell is unchanged)
+        let _ = std::panic::catch_unwind(std::panic::AssertUnwindSafe(|| {
+            writer.write(|_d: &mut Data| std::panic::panic_any(ScriptedPanic))
+        }));
+    }
     let published = Arc::new(AtomicU64::new(0));
     let torn = Arc::new(AtomicU64::new(0));
     let stale = Arc::new(AtomicU64::new(0));
@@ -280,14 +312,46 @@ fn value(k: usize, id: u64) -> T {
 }
 
 fn case(k: usize, wqs: &[Vec<u64>], nr: usize, sched: Vec<u64>) -> T {
+    let calls: Vec<Vec<(u64, Option<u64>)>> = wqs.iter().map(|q| q.iter().map(|id| (*id, None)).collect()).collect();
+    case_p(k, &calls, nr, sched)
+}
+
+/// calls: (value id, None = returns / Some(j) = the closure panics after j words)
+fn case_p(k: usize, wqs: &[Vec<(u64, Option<u64>)>], nr: usize, sched: Vec<u64>) -> T {
     T::l(vec![
         T::i(0),
         T::n(k as u64),
         value(k, 0),
-        T::l(wqs.iter().map(|q| T::l(q.iter().map(|id| value(k, *id)).collect())).collect()),
+        T::l(wqs
+            .iter()
+            .map(|q| T::l(q.iter().map(|(id, o)| T::l(vec![value(k, *id), T::opt(*o)])).collect()))
+            .collect()),
         T::n(nr as u64),
         T::list_n(&sched),
     ])
+}
+
+/// every interleaving of `w` writer grants (thread 0) with `r` reader grants (thread 1)
+fn interleavings(w: usize, r: usize) -> Vec<Vec<u64>> {
+    let mut out = vec![];
+    let mut stack: Vec<(Vec<u64>, usize, usize)> = vec![(vec![], w, r)];
+    while let Some((pre, w, r)) = stack.pop() {
+        if w == 0 && r == 0 {
+            out.push(pre);
+            continue;
+        }
+        if r > 0 {
+            let mut p = pre.clone();
+            p.push(1);
+            stack.push((p, w, r - 1));
+        }
+        if w > 0 {
+            let mut p = pre;
+            p.push(0);
+            stack.push((p, w - 1, r));
+        }
+    }
+    out
 }
 
 /// Is the two-writer finding listed?  Its witnesses (which fail Pcheck) are generated only
@@ -303,23 +367,25 @@ pub fn gen(rng: &mut Rng, n: u64, tier: &str) -> Vec<T> {
     let mut cases = vec![];
     // (a) bounded-exhaustive: 1 writer (2 writes of 2 words = 8 grants), 1 reader (6 grants = two
     //     uninterrupted reads; 9 in thorough): EVERY interleaving of the two grant sequences
-    let (wg, rg) = (8usize, if thorough { 9usize } else { 6 });
-    let mut stack: Vec<(Vec<u64>, usize, usize)> = vec![(vec![], wg, rg)];
-    while let Some((pre, w, r)) = stack.pop() {
-        if w == 0 && r == 0 {
-            cases.push(case(2, &[vec![1, 2]], 1, pre));
-            continue;
-        }
-        if r > 0 {
-            let mut p = pre.clone();
-            p.push(1);
-            stack.push((p, w, r - 1));
-        }
-        if w > 0 {
-            let mut p = pre;
-            p.push(0);
-            stack.push((p, w - 1, r));
-        }
+    for sched in interleavings(8, if thorough { 9 } else { 6 }) {
+        cases.push(case(2, &[vec![1, 2]], 1, sched));
+    }
+    // (a') the same with a PANICKING first closure (after 1 of 2 words: 3 grants) followed by a
+    //      normal write (4 grants): a reader must never return the second write's
+    //      intermediate state, whatever the first call's panic did to the counter
+    for sched in interleavings(7, if thorough { 8 } else { 6 }) {
+        cases.push(case_p(2, &[vec![(1, Some(1)), (2, None)]], 1, sched));
+    }
+    // directed: panicked write (j = 0, 1, 2 of 2 words), then a later write held between its two
+    // increments (after its first word) while the reader runs a whole read, then finished
+    for j in 0..=2u64 {
+        let first = if j == 2 { 4 } else { 3 }; // grants of the panicking call
+        let mut sched = vec![0u64; first];
+        sched.extend([1, 1, 1]); // a read between the calls: must return the value left behind
+        sched.extend([0, 0]); // second write: opening increment, first word
+        sched.extend([1, 1, 1, 1, 1, 1]); // reader while the write is in progress
+        sched.extend([0, 0, 1, 1, 1]);
+        cases.push(case_p(2, &[vec![(1, Some(j)), (2, None)]], 1, sched));
     }
     // (b) directed: reader overlaps a whole write and must retry; reader between writes
     cases.push(case(2, &[vec![1, 2]], 1, vec![1, 1, 0, 0, 0, 0, 1, 1, 1, 1, 1, 1, 1]));
@@ -335,7 +401,10 @@ pub fn gen(rng: &mut Rng, n: u64, tier: &str) -> Vec<T> {
         let sched: Vec<u64> = (0..len)
             .map(|_| if rng.chance(wbias, 5) { 0 } else { rng.range(1, nr as u64 + 1) })
             .collect(); // thread id nr+1 does not exist: a no-op grant
-        cases.push(case(k, &[(1..=nwrites).collect()], nr, sched));
+        let calls: Vec<(u64, Option<u64>)> = (1..=nwrites)
+            .map(|id| (id, if rng.chance(1, 5) { Some(rng.below(k as u64 + 1)) } else { None }))
+            .collect();
+        cases.push(case_p(k, &[calls], nr, sched));
     }
     // (d) two writer threads on the one handle, writes NOT overlapping (whole writes = k+2
     //     consecutive grants): the several-writer model agrees and nothing is torn
@@ -381,7 +450,7 @@ pub fn gen(rng: &mut Rng, n: u64, tier: &str) -> Vec<T> {
     let stress = if thorough { 12 } else { 3 };
     for i in 0..stress {
         let nreaders = 1 + (i % 3);
-        cases.push(T::l(vec![T::i(1), T::n(20_000u64), T::n(nreaders as u64), T::n(20_000u64)]));
+        cases.push(T::l(vec![T::i(1), T::n(20_000u64), T::n(nreaders as u64), T::n(20_000u64), T::b(i % 2 == 1)]));
     }
     cases
 }
